@@ -1970,12 +1970,20 @@ _dispatch_stream_cleanup_operations(dispatch_stream_t stream,
 	operations = &stream->operations[DISPATCH_IO_RANDOM];
 	TAILQ_FOREACH_SAFE(op, operations, operation_list, tmp) {
 		if (!channel || op->channel == channel) {
+			if (!channel && !op->err) {
+				// Cleanup after a descriptor error must not report success
+				op->err = op->fd_entry->err;
+			}
 			_dispatch_stream_complete_operation(stream, op);
 		}
 	}
 	operations = &stream->operations[DISPATCH_IO_STREAM];
 	TAILQ_FOREACH_SAFE(op, operations, operation_list, tmp) {
 		if (!channel || op->channel == channel) {
+			if (!channel && !op->err) {
+				// Cleanup after a descriptor error must not report success
+				op->err = op->fd_entry->err;
+			}
 			_dispatch_stream_complete_operation(stream, op);
 		}
 	}
@@ -1995,6 +2003,10 @@ _dispatch_disk_cleanup_specified_operations(dispatch_disk_t disk,
 		if (inactive_only && op->active) continue;
 		if (!channel || op->channel == channel) {
 			_dispatch_op_debug("cleanup: disk %p", op, disk);
+			if (!channel && !op->err) {
+				// Cleanup after a descriptor error must not report success
+				op->err = op->fd_entry->err;
+			}
 			_dispatch_disk_complete_operation(disk, op);
 		}
 	}
